@@ -162,7 +162,7 @@ class Tmpl:
         out = list(self.decls)
         for n in self.facts:
             out.append(".input %s" % n)
-        out += [render_rule(r) for r in self.rules]
+        out += [render_rule(r) for r in self.rules if not r.get("hidden")]
         out += self.extra_text
         for n in self.outputs:
             out.append(".output %s" % n)
@@ -199,7 +199,7 @@ def gen_c10(seed, size="quick"):
     dom = r.choice([8, 15, 30])
     edb(t, r, r.choice([20, 60, 150]) if size == "quick" else r.choice([60, 150, 300]), dom)
     t.meta["choice"] = []
-    kinds = r.sample(["single", "two", "composite", "tree", "recursive_pick", "agg", "agg2", "idx", "idx2", "exists", "nonprefix", "arith", "withfacts", "rec3", "tree_helper", "pingpong"],
+    kinds = r.sample(["single", "two", "composite", "tree", "recursive_pick", "agg", "agg2", "idx", "idx2", "exists", "nonprefix", "arith", "withfacts", "rec3", "tree_helper", "pingpong", "repeat", "inline_body"],
                      r.randrange(1, 4))
     for kind in kinds:
         if kind == "nonprefix":
@@ -224,6 +224,24 @@ def gen_c10(seed, size="quick"):
             t.rules.append({"head": ("pickf", [V("x"), V("y")]), "body": [("atom", "e1", [V("x"), V("y")])]})
             t.meta["choice"].append({"rel": "pickf", "keys": [[0], [1]]})
             t.outputs.append("pickf")
+        elif kind == "repeat":
+            # a repeated variable and a constant in the heads of a choice relation
+            t.decls.append(".decl prr(x:number,y:number,z:number) choice-domain x, (y,z)")
+            t.rules.append({"head": ("prr", [V("x"), V("x"), C(7)]), "body": [("atom", "n1", [V("x")])]})
+            t.rules.append({"head": ("prr", [V("x"), V("y"), V("y")]), "body": [("atom", "e1", [V("x"), V("y")])]})
+            t.meta["choice"].append({"rel": "prr", "keys": [[0], [1, 2]]})
+            t.outputs.append("prr")
+        elif kind == "inline_body":
+            # the body of the choice rule goes through an inlined relation (the oracle evaluates the expanded rule)
+            t.decls.append(".decl inl(x:number,y:number) inline")
+            t.decls.append(".decl pin(x:number,y:number) choice-domain x")
+            t.extra_text.append("inl(x,y) :- e1(x,y), x < y.")
+            t.extra_text.append("inl(x,y) :- e1(y,x), x < 3.")
+            t.extra_text.append("pin(x,y) :- inl(x,y).")
+            t.rules.append({"head": ("pin", [V("x"), V("y")]), "body": [("atom", "e1", [V("x"), V("y")]), ("cmp", "<", V("x"), V("y"))], "hidden": True})
+            t.rules.append({"head": ("pin", [V("x"), V("y")]), "body": [("atom", "e1", [V("y"), V("x")]), ("cmp", "<", V("x"), C(3))], "hidden": True})
+            t.meta["choice"].append({"rel": "pin", "keys": [[0]]})
+            t.outputs.append("pin")
         elif kind == "tree_helper":
             # spanning forest whose choice rule is recursive only through a helper relation of the same SCC
             t.decls.append(".decl parenth(v:number,p:number) choice-domain v")
@@ -375,7 +393,7 @@ def gen_c11(seed, size="quick"):
     dom = r.choice([6, 10, 16])
     edb(t, r, r.choice([15, 40, 90]) if size == "quick" else r.choice([40, 90, 200]), dom)
     t.meta["subsumed"] = []
-    kinds = r.sample(["shortest", "pareto", "latest", "shortest2", "countdown", "via_helper", "merge", "loaded", "loaded_rec", "infacts"],
+    kinds = r.sample(["shortest", "pareto", "latest", "shortest2", "countdown", "via_helper", "merge", "loaded", "loaded_rec", "infacts", "guarded", "const_head", "secondary"],
                      r.randrange(1, 3))
     for kind in kinds:
         if kind == "shortest":
@@ -412,6 +430,41 @@ def gen_c11(seed, size="quick"):
             t.extra_text.append("%s(x,d1) <= %s(x,d2) :- d2 < d1." % (rel, rel))
             t.meta["subsumed"].append({"rel": rel, "dom": "lt1", "monotone": True})
             t.outputs.append(rel)
+        elif kind in ("guarded", "const_head"):
+            # dominance restricted by an extra body atom of the subsumptive clause / by constants in its heads: tuples outside
+            # the guard are never subsumed (what they feed downstream depends on the iteration a dominated tuple disappears in,
+            # so only "no dominated tuple" and "derivable" are judged, not minimality)
+            rel = "gs" if kind == "guarded" else "ch"
+            bound = r.choice([12, 20])
+            t.decls.append(".decl %s(x:number,d:number) btree_delete" % rel)
+            t.rules.append({"head": (rel, [V("x"), C(0)]), "body": [("atom", "n1", [V("x")]), ("cmp", "<", V("x"), C(4))]})
+            t.rules.append({"head": (rel, [V("y"), ADD(V("d"), V("w"))]),
+                            "body": [("atom", rel, [V("x"), V("d")]), ("atom", "ew", [V("x"), V("y"), V("w")]), ("cmp", "<", ADD(V("d"), V("w")), C(bound))]})
+            if kind == "guarded":
+                t.extra_text.append("%s(x,d1) <= %s(x,d2) :- d2 < d1, n1(x)." % (rel, rel))
+                guard = sorted(x[0] for x in t.meta["edb"]["n1"])
+            else:
+                guard = sorted(r.sample(range(dom), 2))
+                for g in guard:
+                    t.extra_text.append("%s(%d,d1) <= %s(%d,d2) :- d2 < d1." % (rel, g, rel, g))
+            t.meta["subsumed"].append({"rel": rel, "dom": "lt1_guard", "guard": guard, "monotone": False})
+            t.outputs.append(rel)
+        elif kind == "secondary":
+            # the subsumptive relation is also searched through a second index (by its cost column) in a later stratum: erased
+            # tuples must leave every index
+            bound = r.choice([12, 20])
+            t.decls.append(".decl sd(x:number,d:number) btree_delete")
+            t.decls.append(".decl byd(d:number,x:number)")
+            t.decls.append(".decl byx(x:number,c:number)")
+            t.rules.append({"head": ("sd", [V("x"), C(0)]), "body": [("atom", "n1", [V("x")]), ("cmp", "<", V("x"), C(3))]})
+            t.rules.append({"head": ("sd", [V("y"), ADD(V("d"), V("w"))]),
+                            "body": [("atom", "sd", [V("x"), V("d")]), ("atom", "ew", [V("x"), V("y"), V("w")]), ("cmp", "<", ADD(V("d"), V("w")), C(bound))]})
+            t.rules.append({"head": ("byd", [V("d"), V("x")]), "body": [("atom", "n1", [V("d")]), ("atom", "sd", [V("x"), V("d")])]})
+            t.rules.append({"head": ("byx", [V("x"), V("c")]), "body": [("atom", "n1", [V("x")]), ("agg", "count", "c", None, ("atom", "sd", [V("x"), U]))]})
+            t.extra_text.append("sd(x,d1) <= sd(x,d2) :- d2 < d1.")
+            t.meta["subsumed"].append({"rel": "sd", "dom": "lt1", "monotone": True})
+            t.meta.setdefault("downstream", []).extend(["byd", "byx"])
+            t.outputs += ["sd", "byd", "byx"]
         elif kind == "infacts":
             # comparable facts in the program text, optionally with a recursive rule
             t.decls.append(".decl lf(x:number,d:number) btree_delete")
@@ -481,12 +534,14 @@ def gen_c11(seed, size="quick"):
     return t
 
 
-def dominated(dom, a, b):
+def dominated(dom, a, b, guard=()):
     """a is dominated by (subsumed by) b"""
     if a == b:
         return False
     if dom == "lt1":
         return a[0] == b[0] and b[1] < a[1]
+    if dom == "lt1_guard":
+        return a[0] == b[0] and b[1] < a[1] and a[0] in guard
     if dom == "lt2":
         return a[0] == b[0] and a[1] == b[1] and b[2] < a[2]
     if dom == "gt1":
@@ -501,11 +556,12 @@ def check_c11(t_meta, rules, edb_sets, outputs):
     full = fixpoint(rules, edb_sets)  # the program without the subsumptive clauses (bounded costs: finite)
     for sub in t_meta["subsumed"]:
         rel, dom = sub["rel"], sub["dom"]
+        guard = set(sub.get("guard", ()))
         rows = outputs.get(rel, set())
         # (i) no final tuple dominated by another final tuple
         for a in rows:
             for b in rows:
-                if dominated(dom, a, b):
+                if dominated(dom, a, b, guard):
                     fails.append(("subsumption-dominated", "%s holds %s although it also holds the dominating %s" % (rel, a, b)))
                     break
             else:
@@ -522,4 +578,18 @@ def check_c11(t_meta, rules, edb_sets, outputs):
             if rows != mins:
                 fails.append(("subsumption-not-minimal", "%s has %d tuples, the minimal elements of the unsubsumed result are %d (missing %s, extra %s)" % (
                     rel, len(rows), len(mins), sorted(mins - rows)[:3], sorted(rows - mins)[:3])))
+    # relations of later strata that read the final subsumptive relation (through other indexes): exactly what their rules derive
+    # from this run's final relations
+    if t_meta.get("downstream"):
+        db = dict(edb_sets)
+        for rel, rows in outputs.items():
+            db[rel] = rows
+        for rel in t_meta["downstream"]:
+            want = set()
+            for r in rules:
+                if r["head"][0] == rel:
+                    want |= derive(r, db)
+            if outputs.get(rel, set()) != want:
+                fails.append(("downstream-mismatch", "%s is not what its rules derive from this run's final relations (missing %s, extra %s)" % (
+                    rel, sorted(want - outputs.get(rel, set()))[:3], sorted(outputs.get(rel, set()) - want)[:3])))
     return fails
